@@ -160,6 +160,105 @@ fn forced_schedules<T: Real + Elem>(ctx: &mut Ctx, pl: &Planned<T>, given: &[Vec
     }
 }
 
+/// Cold start: the concurrent calls are the very FIRST calls ever made on a freshly planned instance (lazily built or
+/// cached per-instance state would be initialised under contention); the isolated reference calls are made afterwards on
+/// the same instance.  Forced two-thread schedules park one thread inside its first call while the other runs a whole
+/// call; a burst releases 8 threads together through a barrier.
+fn cold_start<T: Real + Elem>(ctx: &mut Ctx, kind: Kind, n: usize, d: rustfft::FftDirection) {
+    let mut rng = Rng::new(ctx.seed ^ 0xC01D ^ n as u64);
+    let ca = CallPlan { entry: SCRATCH_ENTRIES[n % 3], k: 1, x: gen_input::<T>("uniform", n, 0, &mut rng) };
+    let cb = CallPlan { entry: crate::calls::ALL_ENTRIES[(n + 1) % 4], k: 2, x: gen_input::<T>("normal", 2 * n, 0, &mut rng) };
+    let schedules: Vec<Vec<(usize, usize)>> = vec![
+        vec![(0, 1), (1, usize::MAX), (0, usize::MAX)],
+        vec![(1, 1), (0, usize::MAX), (1, usize::MAX)],
+        vec![(0, 2), (1, usize::MAX), (0, usize::MAX)],
+        vec![(0, 3), (1, 2), (0, usize::MAX), (1, usize::MAX)],
+    ];
+    for (si, segs) in schedules.iter().enumerate() {
+        let (pid, mut planner) = match ctx.new_planner::<T>(kind) {
+            Some(x) => x,
+            None => return,
+        };
+        let pl = match ctx.plan(pid, &mut planner, n, d, false) {
+            Some(pl) => pl,
+            None => return,
+        };
+        ctx.case(format!("cold {} {} {} #{}", kind.name(), T::ELEM, n, si), true);
+        let baton: Baton = Arc::new((Mutex::new(Sched { segs: segs.clone(), cursor: 0, done: [false, false] }), Condvar::new()));
+        let fft = pl.fft.clone();
+        let adv = pl.adv;
+        let results: Vec<(Option<String>, Vec<Complex<T>>)> = std::thread::scope(|s| {
+            let hs: Vec<_> = [(0usize, &ca), (1usize, &cb)]
+                .into_iter()
+                .map(|(me, c)| {
+                    let baton = baton.clone();
+                    let fft = fft.clone();
+                    s.spawn(move || {
+                        let b2 = baton.clone();
+                        verif_hooks::set_yield_callback(Some(Box::new(move |_ev| yield_point(&b2, me))));
+                        let r = do_call(&*fft, adv, n, c);
+                        verif_hooks::set_yield_callback(None);
+                        finished(&baton, me);
+                        r
+                    })
+                })
+                .collect();
+            hs.into_iter().map(|h| h.join().unwrap_or((Some("thread panicked".into()), vec![]))).collect()
+        });
+        // isolated reference calls, made after the concurrent ones on the same instance
+        let key_a = format!("cold:{}:{}:A", pl.iid, si);
+        let key_b = format!("cold:{}:{}:B", pl.iid, si);
+        if emit_ref(ctx, &pl, &ca, &key_a).is_none() || emit_ref(ctx, &pl, &cb, &key_b).is_none() {
+            continue;
+        }
+        let c1 = ctx.call_begin(pl.iid, ca.entry, &ca.x, if ca.entry.two_buffers() { ca.x.len() } else { 0 }, adv[ca.entry.scratch_index()], json!({"thread": "A", "cold": true}));
+        let c2 = ctx.call_begin(pl.iid, cb.entry, &cb.x, if cb.entry.two_buffers() { cb.x.len() } else { 0 }, adv[cb.entry.scratch_index()], json!({"thread": "B", "cold": true}));
+        for (cid, (panic, res), key) in [(c1, &results[0], &key_a), (c2, &results[1], &key_b)] {
+            let obs = if panic.is_none() { vec![json!({"kind": "hash"})] } else { vec![] };
+            ctx.call_end(cid, panic, obs, "check", key, hash2(res));
+        }
+    }
+    // burst: 8 threads released together on a fresh instance
+    let (pid, mut planner) = match ctx.new_planner::<T>(kind) {
+        Some(x) => x,
+        None => return,
+    };
+    let pl = match ctx.plan(pid, &mut planner, n, d, false) {
+        Some(pl) => pl,
+        None => return,
+    };
+    let barrier = std::sync::Barrier::new(8);
+    let fft = pl.fft.clone();
+    let adv = pl.adv;
+    let results: Vec<(Option<String>, Vec<Complex<T>>)> = std::thread::scope(|s| {
+        let hs: Vec<_> = (0..8)
+            .map(|t| {
+                let (b, fft, c) = (&barrier, fft.clone(), if t % 2 == 0 { &ca } else { &cb });
+                s.spawn(move || {
+                    b.wait();
+                    do_call(&*fft, adv, n, c)
+                })
+            })
+            .collect();
+        hs.into_iter().map(|h| h.join().unwrap_or((Some("thread panicked".into()), vec![]))).collect()
+    });
+    let key_a = format!("burst:{}:A", pl.iid);
+    let key_b = format!("burst:{}:B", pl.iid);
+    if emit_ref(ctx, &pl, &ca, &key_a).is_none() || emit_ref(ctx, &pl, &cb, &key_b).is_none() {
+        return;
+    }
+    let mut cids = Vec::new();
+    for t in 0..8 {
+        let c = if t % 2 == 0 { &ca } else { &cb };
+        cids.push(ctx.call_begin(pl.iid, c.entry, &c.x, if c.entry.two_buffers() { c.x.len() } else { 0 }, adv[c.entry.scratch_index()], json!({"thread": t, "cold": true})));
+    }
+    for (t, cid) in cids.into_iter().enumerate() {
+        let (panic, res) = &results[t];
+        let obs = if panic.is_none() { vec![json!({"kind": "hash"})] } else { vec![] };
+        ctx.call_end(cid, panic, obs, "check", if t % 2 == 0 { &key_a } else { &key_b }, hash2(res));
+    }
+}
+
 fn free_running<T: Real + Elem>(ctx: &mut Ctx, pls: &[Planned<T>], threads: usize, rounds: usize) {
     // the menu of calls, each with a sequential reference
     let mut menu: Vec<(usize, CallPlan<T>, String)> = Vec::new();
@@ -250,6 +349,9 @@ fn threads_for<T: Real + Elem>(ctx: &mut Ctx, item: &mut usize, given: &[Vec<(us
                 }
             }
             free_running(ctx, &pls, 16, rounds);
+            for &n in chunk {
+                cold_start::<T>(ctx, kind, n, DIRS[(n + li) % 2]);
+            }
         }
     }
 }
